@@ -528,6 +528,7 @@ pub fn c12(tier: &str, seed: u64) -> Check {
         spaces.push(c12_binary_space::<AM>(3, 4));
     }
     spaces.push(c12_sparse_binary_space(&[0, 1, 4], 3));
+    spaces.push(crate::props::large::c12_big(thorough));
     let report = super::report(
         "C12",
         tier,
